@@ -163,6 +163,10 @@ def repeatAttr (r : RepeatVar) (key : Str) : Option Val :=
   else if key == lit "Roman" then some (.str (upperAscii (lowerRoman r.position)))
   else none
 
+def repeatKeys : List Str :=
+  [lit "index", lit "number", lit "even", lit "odd", lit "start", lit "end", lit "length",
+   lit "letter", lit "Letter", lit "roman", lit "Roman"]
+
 /-- one traversal step into a value: `temp[path]` / `temp[int(path)]` -/
 def stepInto (v : Val) (seg : Str) : Option Val :=
   match v with
@@ -186,6 +190,9 @@ def traversePath (c : Ctx) (expr : Str) : Option Val :=
     if first == lit "repeat" && (c.locals.get? first).isNone then
       match rest with
       | [name, key] => ((c.repeatMap.find? (·.1 == name)).map (·.2)).bind fun r => repeatAttr r key
+      | [name] =>        -- the repeat variable as a whole: the mapping of its eleven keys
+        ((c.repeatMap.find? (·.1 == name)).map (·.2)).map fun r =>
+          Val.map (repeatKeys.filterMap fun k => (repeatAttr r k).map fun v => (k, v))
       | _ => none
     else if first == lit "attrs" && (c.locals.get? first).isNone then
       match rest with
@@ -253,7 +260,7 @@ def evalFuel (pyEval : Str → Val) : Nat → Ctx → Str → EvalRes
     else if isPrefixB (lit "exists:") expr then
       let e := lstripSp (expr.drop 7)
       let ps := splitOn 124 e
-      match traversePath c (ps.headD []) with
+      match traversePath c (strip (ps.headD [])) with
       | some _ => .val (.int 1)
       | none =>
         if (ps.drop 1).any (fun p => match evalFuel pyEval fuel c (strip p) with | .val v => truthy v | .notFound => false)
@@ -261,7 +268,7 @@ def evalFuel (pyEval : Str → Val) : Nat → Ctx → Str → EvalRes
     else if isPrefixB (lit "nocall:") expr then
       let e := lstripSp (expr.drop 7)
       let ps := splitOn 124 e
-      match traversePath c (ps.headD []) with
+      match traversePath c (strip (ps.headD [])) with
       | some v => .val v
       | none => alt (ps.drop 1)
     else if isPrefixB (lit "not:") expr then
